@@ -909,3 +909,385 @@ Proof.
   destruct (cstep_base_cap dbg c o) as [B1 C1]. destruct (cstep_base_cap dbg' c' o) as [B2 C2].
   eapply (asim_of_abs c c'); try eassumption; apply cstep_inv; assumption.
 Qed.
+
+Definition ssim (st st' : sst) : Prop :=
+  asim (ss0 st) (ss0 st') /\ asim (ss1 st) (ss1 st') /\ ss_bors st = ss_bors st'.
+
+Lemma ssim_sel a st st' : ssim st st' -> asim (sel a st) (sel a st').
+Proof. intros (H0 & H1 & _). destruct a; assumption. Qed.
+
+Lemma ssim_upd a st st' c c' : ssim st st' -> asim c c' -> ssim (upd a st c) (upd a st' c').
+Proof.
+  intros (H0 & H1 & Hb) Hc. unfold ssim. rewrite !bors_upd.
+  destruct a; cbn [upd ss0 ss1]; auto.
+Qed.
+
+Lemma ssim_bors st st' l :
+  ssim st st' -> ssim (mkSst (ss0 st) (ss1 st) l) (mkSst (ss0 st') (ss1 st') l).
+Proof. intros (H0 & H1 & _). unfold ssim; cbn [ss0 ss1 ss_bors]. auto. Qed.
+
+Lemma disc_sim st st' o : ssim st st' -> disc st o -> disc st' o.
+Proof.
+  intros Hs Hd. pose proof Hs as (_ & _ & Hb).
+  destruct o as [c| |a o|]; cbn [disc] in *; auto.
+  - rewrite <- Hb. destruct (top_of a (ss_bors st)) as [h|]; [|exact I].
+    destruct (ssim_sel a _ _ Hs) as (_ & _ & _ & Ho & _ & Hl & _).
+    destruct o; cbn [disc_cli] in *; auto; try (rewrite <- Hl; assumption).
+    unfold aoff in *. rewrite <- Ho. assumption.
+  - rewrite <- Hb. assumption.
+Qed.
+
+Lemma drop_arena_sim dbg dbg' c c' m :
+  asim c c' -> 0 <= m <= aoff c -> asim (drop_arena dbg c m) (drop_arena dbg' c' m).
+Proof.
+  intros (HI & HI' & Hb & Ho & Hc & Hl & Hn & Hm) Hr.
+  assert (Hr' : 0 <= m <= aoff c') by (unfold aoff in *; lia).
+  destruct (drop_arena_base_cap dbg c m) as [B1 C1]. destruct (drop_arena_base_cap dbg' c' m) as [B2 C2].
+  pose proof (drop_arena_off dbg c m) as O1. pose proof (drop_arena_off dbg' c' m) as O2. unfold aoff in O1, O2.
+  unfold asim. refine (conj _ (conj _ (conj _ (conj _ (conj _ _))))).
+  - apply drop_arena_inv; assumption.
+  - apply drop_arena_inv; assumption.
+  - congruence.
+  - congruence.
+  - congruence.
+  - rewrite !drop_arena_eq; cbn [c_live c_next c_marks]. rewrite Hl, Hn, Hm. auto.
+Qed.
+
+Lemma init_arena_base_cap dbg c :
+  a_base (s_a (c_s (init_arena dbg c))) = a_base (s_a (c_s c)) /\
+  a_cap (s_a (c_s (init_arena dbg c))) = a_cap (s_a (c_s c)).
+Proof.
+  rewrite init_arena_eq; cbn [c_s]. unfold maybe_decommit.
+  destruct init_decommits; [rewrite decommit_base, decommit_cap|]; rewrite reset_arena; auto.
+Qed.
+
+Lemma init_arena_sim dbg dbg' c c' :
+  Inv c -> Inv c' ->
+  a_base (s_a (c_s c)) = a_base (s_a (c_s c')) -> a_cap (s_a (c_s c)) = a_cap (s_a (c_s c')) ->
+  asim (init_arena dbg c) (init_arena dbg' c').
+Proof.
+  intros HI HI' Hb Hc.
+  destruct (init_arena_facts dbg c HI) as (O1 & L1 & N1 & M1 & B1 & C1).
+  destruct (init_arena_facts dbg' c' HI') as (O2 & L2 & N2 & M2 & B2 & C2).
+  unfold aoff in O1, O2. unfold asim.
+  refine (conj (init_arena_inv dbg c HI) (conj (init_arena_inv dbg' c' HI') _)).
+  repeat split; congruence.
+Qed.
+
+Lemma sstep_sim dbg dbg' st st' o :
+  ssim st st' -> SInv st -> sop_ok o -> disc st o ->
+  ssim (fst (sstep dbg st o)) (fst (sstep dbg' st' o)) /\ snd (sstep dbg st o) = snd (sstep dbg' st' o).
+Proof.
+  intros Hs HS Hop Hd. pose proof Hs as (S0 & S1 & Hb).
+  destruct o as [c| |a o|].
+  - cbn [sstep fst snd]. destruct (ssim_sel (choose c) _ _ Hs) as (_ & _ & _ & Ho & _ & _ & Hn & _).
+    unfold aoff. rewrite Ho, Hn, Hb. split; [apply ssim_bors; assumption|reflexivity].
+  - cbn [sstep]. rewrite <- Hb. destruct (ss_bors st) as [|b rest] eqn:Eb; cbn [fst snd]; [auto|].
+    split; [|reflexivity].
+    destruct HS as (_ & _ & Hbo & _). rewrite Eb in Hbo. inversion Hbo as [|? ? Hbb _]; subst.
+    destruct Hbb as (Hm & _).
+    apply ssim_bors. apply ssim_upd; [assumption|]. apply drop_arena_sim; [apply ssim_sel; assumption|assumption].
+  - cbn [disc] in Hd. destruct (top_of a (ss_bors st)) as [h|] eqn:Et.
+    + destruct (disc_cli_not_borrow _ _ _ Hd) as [Hn1 Hn2].
+      rewrite (sstep_cli_eq dbg st a o h Et Hn1 Hn2).
+      rewrite Hb in Et. rewrite (sstep_cli_eq dbg' st' a o h Et Hn1 Hn2). cbn [fst snd].
+      destruct (cstep_sim dbg dbg' (sel a st) (sel a st') o (ssim_sel a _ _ Hs) (sop_ok_cli _ _ Hop)) as [Hc Hr].
+      split; [apply ssim_upd; assumption|rewrite Hr; reflexivity].
+    + rewrite sstep_cli_none by assumption. rewrite Hb in Et. rewrite sstep_cli_none by assumption. auto.
+  - cbn [sstep fst snd]. split; [|reflexivity]. unfold reinit, ssim; cbn [ss0 ss1 ss_bors].
+    destruct S0 as (I0 & I0' & B0 & _ & C0 & _). destruct S1 as (I1 & I1' & B1 & _ & C1 & _).
+    refine (conj _ (conj _ Hb)); apply init_arena_sim; assumption.
+Qed.
+
+Lemma strace_sim dbg dbg' ops : forall st st',
+  ssim st st' -> SInv st -> SInv st' -> run_disc dbg st ops ->
+  strace dbg st ops = strace dbg' st' ops.
+Proof.
+  induction ops as [|o ops IH]; intros st st' Hs HS HS' Hr; cbn [strace]; [reflexivity|].
+  cbn [run_disc] in Hr. destruct Hr as (Hop & Hd & Hr).
+  destruct (sstep_sim dbg dbg' st st' o Hs HS Hop Hd) as [Hs1 Hres].
+  pose proof (sstep_inv dbg st o HS Hop Hd) as HS1.
+  pose proof (sstep_inv dbg' st' o HS' Hop (disc_sim _ _ _ Hs Hd)) as HS1'.
+  destruct (sstep dbg st o) as [st1 r] eqn:E. destruct (sstep dbg' st' o) as [st1' r'] eqn:E'.
+  cbn [fst snd] in *. subst r'. f_equal.
+  - f_equal. unfold addr_obs, aoff. destruct Hs1 as ((_ & _ & _ & O0 & _) & (_ & _ & _ & O1 & _) & _). congruence.
+  - apply IH; assumption.
+Qed.
+
+Lemma sstep_base_cap dbg st o a :
+  a_base (s_a (c_s (sel a (fst (sstep dbg st o))))) = a_base (s_a (c_s (sel a st))) /\
+  a_cap (s_a (c_s (sel a (fst (sstep dbg st o))))) = a_cap (s_a (c_s (sel a st))).
+Proof.
+  destruct o as [c| |a' o|]; cbn [sstep].
+  - cbn [fst]. rewrite sel_rebuild. auto.
+  - destruct (ss_bors st) as [|b rest]; cbn [fst]; [auto|]. rewrite sel_rebuild, sel_cases.
+    destruct (Bool.eqb a (bo_arena b)) eqn:E; [|auto]. apply Bool.eqb_prop in E. subst a. apply drop_arena_base_cap.
+  - destruct (top_of a' (ss_bors st)); [|auto].
+    assert (H : forall c', a_base (s_a (c_s c')) = a_base (s_a (c_s (sel a' st))) /\ a_cap (s_a (c_s c')) = a_cap (s_a (c_s (sel a' st))) ->
+              a_base (s_a (c_s (sel a (upd a' st c')))) = a_base (s_a (c_s (sel a st))) /\
+              a_cap (s_a (c_s (sel a (upd a' st c')))) = a_cap (s_a (c_s (sel a st)))).
+    { intros c' Hc. rewrite sel_cases. destruct (Bool.eqb a a') eqn:E; [|auto]. apply Bool.eqb_prop in E. subst a. assumption. }
+    destruct o; try (cbn [fst]; auto);
+      match goal with |- context [cstep dbg (sel a' st) ?op] =>
+        pose proof (cstep_base_cap dbg (sel a' st) op) as Hbc; destruct (cstep dbg (sel a' st) op) as [c1 r1]; cbn [fst] in *; apply H; assumption end.
+  - cbn [fst]. unfold reinit. destruct a; cbn [sel ss0 ss1]; apply init_arena_base_cap.
+Qed.
+
+Lemma srun_base_cap dbg ops : forall st a,
+  a_base (s_a (c_s (sel a (srun dbg st ops)))) = a_base (s_a (c_s (sel a st))) /\
+  a_cap (s_a (c_s (sel a (srun dbg st ops)))) = a_cap (s_a (c_s (sel a st))).
+Proof.
+  induction ops as [|o ops IH]; intros st a; cbn [srun fold_left]; [auto|].
+  destruct (IH (fst (sstep dbg st o)) a) as [B C]. destruct (sstep_base_cap dbg st o a) as [B' C'].
+  unfold srun in *. split; congruence.
+Qed.
+
+(* reinit_history_independent: whatever the process did before (any disciplined history
+   `prev` that dropped all its borrows), after `init` every result — which arena a borrow
+   gets, the saved offsets, every returned (offset, length), every success or failure, both
+   arenas' offsets after every step — is the one two fresh arenas of the same capacity
+   give, in debug and in release. *)
+Lemma reinit_history_independent_lemma dbg dbg' b0 b1 cap prev ops :
+  run_disc dbg (sinit b0 b1 cap) prev ->
+  ss_bors (srun dbg (sinit b0 b1 cap) prev) = [] ->
+  run_disc dbg' (sinit b0 b1 cap) ops ->
+  strace dbg (fst (sstep dbg (srun dbg (sinit b0 b1 cap) prev) SInit)) ops =
+  strace dbg' (sinit b0 b1 cap) ops.
+Proof.
+  intros Hprev Hnb Hops.
+  pose proof (scratch_inv_reachable dbg b0 b1 cap prev Hprev) as HSp.
+  set (stp := srun dbg (sinit b0 b1 cap) prev) in *.
+  pose proof (sstep_inv dbg stp SInit HSp I Hnb) as HSr.
+  symmetry. apply strace_sim; [|apply sinit_inv|assumption|assumption].
+  cbn [sstep fst]. unfold reinit, ssim; cbn [ss0 ss1 ss_bors].
+  destruct HSp as (I0 & I1 & _).
+  destruct (srun_base_cap dbg prev (sinit b0 b1 cap) false) as [B0 C0].
+  destruct (srun_base_cap dbg prev (sinit b0 b1 cap) true) as [B1 C1].
+  fold stp in B0, C0, B1, C1. cbn [sel] in B0, C0, B1, C1.
+  assert (H : forall b c, Inv c -> a_base (s_a (c_s c)) = a_base (s_a (c_s (cinit b cap))) ->
+                a_cap (s_a (c_s c)) = a_cap (s_a (c_s (cinit b cap))) -> asim (cinit b cap) (init_arena dbg c)).
+  { intros b c Hc Hb Hcap.
+    destruct (init_arena_facts dbg c Hc) as (O1 & L1 & N1 & M1 & B & C). unfold aoff in O1.
+    unfold asim. refine (conj (cinit_inv b cap) (conj (init_arena_inv dbg c Hc) _)).
+    rewrite O1, L1, N1, M1, B, C, Hb, Hcap. repeat split; reflexivity. }
+  refine (conj _ (conj _ (eq_sym Hnb))); apply H; assumption.
+Qed.
+
+(* ---------- normalisation yields disciplined histories ---------- *)
+
+Lemma pos_of_nth (l : list blk) b :
+  In b l -> exists x, nth_error l (pos_of (b_id b) l) = Some x /\ b_id x = b_id b /\ (pos_of (b_id b) l < length l)%nat.
+Proof.
+  induction l as [|y l IH]; intros Hin; [destruct Hin|]. cbn [pos_of].
+  destruct (b_id y =? b_id b) eqn:E.
+  - apply Z.eqb_eq in E. exists y. cbn [nth_error length]. split; [reflexivity|]. split; [assumption|lia].
+  - destruct Hin as [->|Hin]; [rewrite Z.eqb_refl in E; discriminate|].
+    destruct (IH Hin) as (x & Hx & Hid & Hlt). exists x. cbn [nth_error length]. split; [assumption|]. split; [assumption|lia].
+Qed.
+
+Lemma norm_idx_pick c h idx i :
+  norm_idx c h idx = Some i ->
+  exists x, pick (c_live c) i = Some x /\ bo_next h <= b_id x.
+Proof.
+  unfold norm_idx. destruct (pick (filter (owned h) (c_live c)) idx) as [b|] eqn:Ep; [|discriminate].
+  intros Hi; inversion Hi; subst i; clear Hi.
+  apply pick_In in Ep. apply filter_In in Ep. destruct Ep as [Hin Hown].
+  unfold owned in Hown. apply Z.leb_le in Hown.
+  destruct (pos_of_nth _ _ Hin) as (x & Hx & Hid & Hlt).
+  exists x. split; [|lia]. unfold pick.
+  destruct (c_live c) as [|y l] eqn:El; [destruct Hin|].
+  rewrite Nat.mod_small by assumption. assumption.
+Qed.
+
+Lemma norm_disc st o o' :
+  SInv st -> sop_ok o -> norm st o = Some o' -> sop_ok o' /\ disc st o'.
+Proof.
+  intros HS Hop Hn. destruct o as [c| |a o|]; cbn [norm] in Hn.
+  - inversion Hn; subst. split; exact I.
+  - inversion Hn; subst. split; exact I.
+  - destruct (top_of a (ss_bors st)) as [h|] eqn:Et; [|discriminate].
+    destruct (top_of_In _ _ _ Et) as [Hhin Hha].
+    destruct HS as (_ & _ & Hb & _). rewrite Forall_forall in Hb. pose proof (Hb h Hhin) as Hbh. rewrite Hha in Hbh.
+    destruct Hbh as ((Hm0 & Hm1) & _).
+    destruct (norm_cli (sel a st) h o) as [o1|] eqn:En; [|discriminate]. cbn [option_map] in Hn. inversion Hn; subst o'; clear Hn.
+    cbn [disc]. rewrite Et.
+    destruct o; cbn [norm_cli] in En;
+      try (inversion En; subst o1; cbn [sop_ok disc_cli] in *; split; auto; fail);
+      try (destruct (norm_idx (sel a st) h idx) as [i|] eqn:Ei; [|discriminate]; cbn [option_map] in En; inversion En; subst o1;
+           destruct (norm_idx_pick _ _ _ _ Ei) as (x & Hx & Hid); cbn [sop_ok disc_cli] in *; rewrite Hx; split; assumption).
+    + (* OReset *)
+      inversion En; subst o1. cbn [sop_ok disc_cli] in *.
+      pose proof (Z.mod_pos_bound t (aoff (sel a st) - bo_mark h + 1) ltac:(lia)). split; lia.
+  - destruct (ss_bors st) eqn:Eb; [|discriminate]. inversion Hn; subst. split; [exact I|exact Eb].
+Qed.
+
+Lemma nstep_inv dbg st o : SInv st -> sop_ok o -> SInv (fst (nstep dbg st o)).
+Proof.
+  intros HS Hop. unfold nstep. destruct (norm st o) as [o'|] eqn:En; [|assumption].
+  destruct (norm_disc st o o' HS Hop En). apply sstep_inv; assumption.
+Qed.
+
+(* every op list, normalised, is a disciplined history *)
+Lemma nrun_inv dbg ops : forall st, SInv st -> Forall sop_ok ops -> SInv (nrun dbg st ops).
+Proof.
+  induction ops as [|o ops IH]; intros st HS Hops; cbn [nrun fold_left]; [assumption|].
+  inversion Hops; subst. apply IH; [apply nstep_inv; assumption|assumption].
+Qed.
+
+(* ---------- contents of any live block (lift of the C11 theorem) ---------- *)
+
+Definition swrites (st : sst) (o : sop) (a : bool) (id : Z) : Prop :=
+  match o with
+  | SCli a' op => a' = a /\ top_of a' (ss_bors st) <> None /\ writes_to (sel a st) op id
+  | _ => False
+  end.
+
+Lemma sstep_contents dbg st o a id b b' :
+  SInv st -> sop_ok o -> disc st o ->
+  find_blk (c_live (sel a st)) id = Some b ->
+  find_blk (c_live (sel a (fst (sstep dbg st o)))) id = Some b' ->
+  ~ swrites st o a id ->
+  forall i, 0 <= i < Z.min (b_len b) (b_len b') ->
+    s_m (c_s (sel a (fst (sstep dbg st o)))) (b_off b' + i) = s_m (c_s (sel a st)) (b_off b + i).
+Proof.
+  intros HS Hop Hd Hf Hf' Hnw i Hi. pose proof (SInv_sel a st HS) as HIa.
+  destruct o as [c| |a' o|].
+  - cbn [sstep fst] in *. rewrite sel_rebuild in *. rewrite Hf in Hf'. inversion Hf'; subst. reflexivity.
+  - cbn [sstep] in *. destruct (ss_bors st) as [|h rest] eqn:Eb; cbn [fst] in *.
+    + rewrite Hf in Hf'. inversion Hf'; subst. reflexivity.
+    + rewrite sel_rebuild, sel_cases in *.
+      destruct (Bool.eqb a (bo_arena h)) eqn:E; [|rewrite Hf in Hf'; inversion Hf'; subst; reflexivity].
+      apply Bool.eqb_prop in E. subst a.
+      rewrite drop_arena_eq in Hf'; cbn [c_live] in Hf'.
+      pose proof HIa as (_ & _ & _ & Hnd & _).
+      destruct (find_blk_In _ _ _ Hf') as [Hin' Hid']. unfold keep_below in Hin'. apply filter_In in Hin'.
+      destruct Hin' as [Hin'' Hk]. apply Z.leb_le in Hk.
+      pose proof (find_blk_unique _ _ _ Hnd Hin'' Hid') as Hu. rewrite Hf in Hu. inversion Hu; subst b'.
+      apply drop_arena_mem. lia.
+  - cbn [disc] in Hd. destruct (top_of a' (ss_bors st)) as [t|] eqn:Et.
+    + destruct (disc_cli_not_borrow _ _ _ Hd) as [Hn1 Hn2].
+      rewrite (sstep_cli_eq dbg st a' o t Et Hn1 Hn2) in *. cbn [fst] in *. rewrite sel_cases in *.
+      destruct (Bool.eqb a a') eqn:E; [|rewrite Hf in Hf'; inversion Hf'; subst; reflexivity].
+      apply Bool.eqb_prop in E. subst a'.
+      apply (cstep_preserves_contents dbg (sel a st) o id b b' HIa (sop_ok_cli _ _ Hop) Hf Hf'); [|assumption].
+      intros Hw. apply Hnw. cbn [swrites]. split; [reflexivity|]. split; [rewrite Et; discriminate|assumption].
+    + rewrite sstep_cli_none in * by assumption. cbn [fst] in *. rewrite Hf in Hf'. inversion Hf'; subst. reflexivity.
+  - cbn [sstep fst reinit] in Hf'. destruct a; cbn [sel ss0 ss1] in Hf'; rewrite init_arena_eq in Hf'; discriminate.
+Qed.
+
+(* ---------- the generated wiring ---------- *)
+
+(* what each entry point's script expands to, for arbitrary client operations of the phases *)
+Definition cli_shape (p : phase_ops) : list sop :=
+  [SBorrow CNone] ++ map (SCli false) (po_parse p) ++
+  [SBorrow (CScratch false)] ++ role_ops true false (po_resolve p) ++
+  [SBorrow (CScratch false)] ++ role_ops false true (po_run p) ++ [SDrop; SDrop; SDrop].
+
+Definition lib_shape (p : phase_ops) : list sop :=
+  [SBorrow CNone; SBorrow (CScratch false)] ++ map (SCli false) (po_parse p) ++
+  role_ops false false (po_resolve p) ++ role_ops false true (po_run p) ++ [SDrop; SDrop].
+
+Lemma app_assoc_cons {A} (x : A) l r : (x :: l) ++ r = x :: (l ++ r).
+Proof. reflexivity. Qed.
+
+Lemma cli_script_expands p : expand w0 cli_script p = Some (cli_shape p).
+Proof.
+  unfold cli_script, cli_shape. cbn. rewrite <- !app_assoc. reflexivity.
+Qed.
+
+Lemma wasm_script_expands p : expand w0 wasm_script p = Some (cli_shape p).
+Proof.
+  unfold wasm_script, cli_shape. cbn. rewrite <- !app_assoc. reflexivity.
+Qed.
+
+Lemma lib_script_expands p : expand w0 lib_script p = Some (lib_shape p).
+Proof.
+  unfold lib_script, lib_shape. cbn. rewrite <- !app_assoc. reflexivity.
+Qed.
+
+Definition phase_ok (p : phase_ops) : Prop :=
+  Forall op_ok (po_parse p) /\ Forall (fun ro => op_ok (snd ro)) (po_resolve p) /\
+  Forall (fun ro => op_ok (snd ro)) (po_run p).
+
+Lemma op_ok_sop a o : op_ok o -> sop_ok (SCli a o).
+Proof. destruct o; cbn [sop_ok op_ok]; auto. Qed.
+
+Lemma role_ops_ok a1 a2 l : Forall (fun ro : bool * op => op_ok (snd ro)) l -> Forall sop_ok (role_ops a1 a2 l).
+Proof.
+  intros H. unfold role_ops. apply Forall_forall. intros x Hx. apply in_map_iff in Hx.
+  destruct Hx as (ro & <- & Hin). rewrite Forall_forall in H. apply op_ok_sop. apply H. assumption.
+Qed.
+
+Lemma map_cli_ok a l : Forall op_ok l -> Forall sop_ok (map (SCli a) l).
+Proof.
+  intros H. apply Forall_forall. intros x Hx. apply in_map_iff in Hx.
+  destruct Hx as (o & <- & Hin). rewrite Forall_forall in H. apply op_ok_sop. apply H. assumption.
+Qed.
+
+Lemma cli_shape_ok p : phase_ok p -> Forall sop_ok (cli_shape p).
+Proof.
+  intros (H1 & H2 & H3). unfold cli_shape.
+  repeat (apply Forall_app; split); try (repeat constructor; fail);
+    auto using map_cli_ok, role_ops_ok.
+Qed.
+
+Lemma lib_shape_ok p : phase_ok p -> Forall sop_ok (lib_shape p).
+Proof.
+  intros (H1 & H2 & H3). unfold lib_shape.
+  repeat (apply Forall_app; split); try (repeat constructor; fail);
+    auto using map_cli_ok, role_ops_ok.
+Qed.
+
+(* the borrow stack after a normalised run depends on the op list only through its
+   borrow/drop skeleton *)
+Lemma bors_nstep_cli dbg st a o : ss_bors (fst (nstep dbg st (SCli a o))) = ss_bors st.
+Proof.
+  unfold nstep. destruct (norm st (SCli a o)) as [o'|] eqn:En; [|reflexivity].
+  cbn [norm] in En. destruct (top_of a (ss_bors st)); [|discriminate].
+  destruct (norm_cli (sel a st) b o); [|discriminate]. cbn [option_map] in En. inversion En; subst.
+  apply bors_sstep_cli.
+Qed.
+
+Lemma nrun_cli_bors dbg l : forall st, (forall o, In o l -> exists a op, o = SCli a op) ->
+  ss_bors (nrun dbg st l) = ss_bors st.
+Proof.
+  induction l as [|o l IH]; intros st H; cbn [nrun fold_left]; [reflexivity|].
+  destruct (H o (or_introl eq_refl)) as (a & op & ->).
+  unfold nrun in IH. rewrite IH; [apply bors_nstep_cli|]. intros o' Ho'. apply H. right. assumption.
+Qed.
+
+Lemma nrun_app dbg l1 l2 st : nrun dbg st (l1 ++ l2) = nrun dbg (nrun dbg st l1) l2.
+Proof. unfold nrun. apply fold_left_app. Qed.
+
+Lemma map_cli_shape a l o : In o (map (SCli a) l) -> exists a' op, o = SCli a' op.
+Proof. intros H. apply in_map_iff in H. destruct H as (x & <- & _). eauto. Qed.
+
+Lemma role_ops_shape a1 a2 l o : In o (role_ops a1 a2 l) -> exists a' op, o = SCli a' op.
+Proof. unfold role_ops. intros H. apply in_map_iff in H. destruct H as (x & <- & _). eauto. Qed.
+
+(* ---------- exit status ---------- *)
+
+Lemma has_errors_In l : has_errors l = true <-> In true l.
+Proof.
+  unfold has_errors. rewrite existsb_exists. split.
+  - intros (x & Hin & Hx). subst. assumption.
+  - intros H. exists true. auto.
+Qed.
+
+Lemma exit_zero_iff_no_error_lemma parse resolve run :
+  syntax_emits_only_errors = true ->
+  (forall e, In e parse -> e = true) ->
+  (exit_code parse resolve run = 0 <-> ~ In true (emitted parse resolve run)).
+Proof.
+  intros _ Hp. unfold exit_code, emitted.
+  unfold cli_parse_guard, cli_resolve_guard, cli_run_guard, cli_parse_exit, cli_resolve_exit, cli_run_exit, cli_final_exit.
+  cbn [guard_fires].
+  destruct parse as [|e parse].
+  - destruct (has_errors resolve) eqn:Er.
+    + split; [discriminate|]. intros H. exfalso. apply H. cbn [app]. apply has_errors_In. assumption.
+    + destruct (has_errors run) eqn:Eu.
+      * split; [discriminate|]. intros H. exfalso. apply H. cbn [app]. apply in_or_app. right. apply has_errors_In. assumption.
+      * split; [|reflexivity]. intros _ H. cbn [app] in H. apply in_app_or in H.
+        destruct H as [H|H]; apply has_errors_In in H; congruence.
+  - split; [discriminate|]. intros H. exfalso. apply H. left. symmetry. apply Hp. left. reflexivity.
+Qed.
